@@ -333,6 +333,10 @@ pub struct Outcome {
     /// The pair read without any hook after every thread was joined.
     pub final_pair: (u64, u64),
     pub final_sequence: u64,
+    /// Pair and sequence number of another, untouched instance created after the run
+    /// (instances share nothing: it must still be at the epoch).
+    pub bystander_pair: (u64, u64),
+    pub bystander_sequence: u64,
 }
 
 pub struct Plan {
@@ -548,6 +552,12 @@ pub fn run(plan: Plan, target: Target) -> Outcome {
         (b, voucher_bits(v))
     };
     let final_sequence = abt.sequence();
+    let bystander = AtomicBaseTime::new();
+    let bystander_pair = {
+        let (b, v) = bystander.snapshot();
+        (b, voucher_bits(v))
+    };
+    let bystander_sequence = bystander.sequence();
     let st = exec.st.lock().unwrap();
     Outcome {
         results,
@@ -563,5 +573,7 @@ pub fn run(plan: Plan, target: Target) -> Outcome {
         seq_addr: st.seq_addr,
         final_pair,
         final_sequence,
+        bystander_pair,
+        bystander_sequence,
     }
 }
